@@ -1044,7 +1044,10 @@ class _L1DynamicsService(_CollinearDynamicsService):
             L1 is between the primaries: -mu < x < 1-mu.
         """
         # L1 is between the primaries: -mu < x < 1-mu
-        return [-self.mu + 0.01, 1 - self.mu - 0.01]
+        # Keep the upper end inside the Hill sphere of the secondary: the root sits at
+        # 1 - mu - gamma with gamma ~ (mu/3)^(1/3), which drops below 0.01 for small mu.
+        margin = min(0.01, 0.5 * (self.mu / 3.0) ** (1.0 / 3.0))
+        return [-self.mu + 0.01, 1 - self.mu - margin]
 
     @property
     def _gamma_poly_def(self) -> Tuple[list, tuple]:
@@ -1118,7 +1121,10 @@ class _L2DynamicsService(_CollinearDynamicsService):
             L2 is beyond the smaller primary: x > 1-mu.
         """
         # L2 is beyond the smaller primary: x > 1-mu
-        return [1 - self.mu + 0.001, 2.0]
+        # Keep the lower end inside the Hill sphere of the secondary: the root sits at
+        # 1 - mu + gamma with gamma ~ (mu/3)^(1/3), which drops below 0.001 for small mu.
+        margin = min(0.001, 0.5 * (self.mu / 3.0) ** (1.0 / 3.0))
+        return [1 - self.mu + margin, 2.0]
 
     @property
     def _gamma_poly_def(self) -> Tuple[list, tuple]:
